@@ -86,7 +86,8 @@ def angle_input(name, lo="0"):
                     z3.Implies(s == 0, z3.Or(v == 0, v == P)),
                     ]
     elif lo == "free":
-        pass
+        # no range, hence no quadrant facts; but the value 0 is the angle 0
+        CTX.pre += [z3.Implies(v == 0, z3.And(c == 1, s == 0))]
     else:
         raise ValueError(lo)
     return a
